@@ -688,3 +688,34 @@ Proof. intros a b s H. split. exact (oc_no_outside a b s H). exact (oc_range a b
 
 Lemma rt_clash_no_unifier : forall a b, unify_rt a b = Some false -> forall f, inst f a <> inst f b.
 Proof. intros a b H. apply oc_complete_fun. apply rt_false_no_finite_unifier. exact H. Qed.
+
+(* ------------------------------------------------------------------ the comparison functions say what they should *)
+Lemma check_oc_fail_iff : forall a b vs, check_oc a b vs IFail = true <-> unify_oc a b = None.
+Proof.
+  intros. unfold check_oc, chk_oc, chk_bind. destruct (unify_oc a b); split; intro H; try discriminate; auto.
+Qed.
+
+Lemma check_oc_ok : forall a b vs same bs, check_oc a b vs (IOkBind same bs) = true ->
+  exists s, unify_oc a b = Some s /\ same = true /\ variant_lists (model_bindings s vs) bs = true.
+Proof.
+  intros a b vs same bs H. unfold check_oc, chk_oc, chk_bind in H. destruct (unify_oc a b) as [s|]; try discriminate.
+  apply andb_true_iff in H. destruct H. eauto.
+Qed.
+
+Lemma check_rt_fail_iff : forall a b vs, check_rt a b vs IFail = true <-> unify_oc a b = None /\ unify_rt a b = Some false.
+Proof.
+  intros. unfold check_rt, chk_rt, chk_bind. destruct (unify_oc a b); [split; [discriminate|intros [H _]; discriminate]|].
+  destruct (unify_rt a b) as [[|]|]; split; try discriminate; auto; intros [_ H]; discriminate.
+Qed.
+
+Lemma check_err_error : forall a b vs, check_err a b vs IOccursError = true -> unify_oc a b = None.
+Proof.
+  intros a b vs H. unfold check_err, chk_err, chk_bind in H. destruct (unify_oc a b); auto. discriminate.
+Qed.
+
+Lemma check_pair_spec : forall a b vs rts ocs errs, check_pair a b vs rts ocs errs = true <->
+  (forall o, In o rts -> check_rt a b vs o = true) /\ (forall o, In o ocs -> check_oc a b vs o = true) /\
+  (forall o, In o errs -> check_err a b vs o = true).
+Proof.
+  intros. unfold check_pair, check_rt, check_oc, check_err. rewrite !andb_true_iff, !forallb_forall. tauto.
+Qed.
